@@ -36,8 +36,8 @@ def simplifyConstantPower (st : Bool) : Nat → Expr → Expr → R Expr
       | some b, some e =>
         if e.val > 0 then do pure (ofPInt (← intPow st b e)) else pure (node POWER [base, exponent])
       | _, _ =>
-        if base.op == POWER then
-          -- multiply constant powers
+        if base.op == POWER && exponent.op == INTEGER then
+          -- multiply powers: `(b^m)^n = b^(m*n)` for an INTEGER `n` only
           match base.args with
           | [baseBase, baseExponent] => do
             let newExponent ← simplifyProduct st fuel [baseExponent, exponent]
